@@ -220,8 +220,9 @@ def Stream.increaseFlowControlWindow (incr : Int) : M Stream (List Frame) := do
 
 /-- `_process_received_headers` -/
 def processReceivedHeaders (cfg : Config) (headers : List Header) (fl : HdrFlags) : Except Exc (List Header) := do
-  let hs := if cfg.normIn then combineCookies headers else headers
-  let hs ← if cfg.valIn then validateInbound hs fl else pure hs
+  -- the block is validated as received; joining the cookie fields (which moves them to the end) comes after
+  let hs ← if cfg.valIn then validateInbound headers fl else pure headers
+  let hs := if cfg.normIn then combineCookies hs else hs
   decodeText cfg.enc hs
 
 def Stream.receivePushPromiseInBand (cfg : Config) (promised : Int) (headers : List Header) :
